@@ -74,6 +74,23 @@ func LiftThroughCalls(pred InstrPred, depth int) InstrPred {
 		}
 		_, ok := MustReachAfter(fn, nil, inner, exit)
 		if ok {
+			// not vacuously: a function without any success exit (e.g. an error constructor, whose every return is a
+			// non-nil error) does not "do" the effect, and only repository functions are wrappers of repository effects
+			hasExit := false
+			Instrs(fn, func(in ssa.Instruction) {
+				if exit != nil {
+					if exit(in) {
+						hasExit = true
+					}
+				} else if IsNormalExit(in) {
+					hasExit = true
+				}
+			})
+			if !hasExit || !IsRepo(fn) {
+				ok = false
+			}
+		}
+		if ok {
 			memo[fn] = 1
 		} else {
 			memo[fn] = 2
